@@ -91,6 +91,45 @@ pub fn corrupt(rng: &mut Rng, cfg: PCfg, doc: &Doc) -> Option<Corruption> {
     if n == 0 {
         return None;
     }
+    // two-token entry: two consecutive AIGER justice sizes that each fit usize while their running total
+    // does not - the error belongs to the second one
+    if pk.is_aiger() && rng.chance(1, 12) {
+        let pairs: Vec<usize> = (1..n)
+            .filter(|&i| doc.toks[i].what == "justice_size" && doc.toks[i - 1].what == "justice_size")
+            .collect();
+        if !pairs.is_empty() {
+            let i = *rng.pick(&pairs);
+            let (p, t) = (&doc.toks[i - 1], &doc.toks[i]);
+            let a = rng.below(1000);
+            // what the sizes in front of the pair already add up to
+            let before: u128 = doc.toks[..i - 1]
+                .iter()
+                .filter(|x| x.what == "justice_size")
+                .filter_map(|x| String::from_utf8_lossy(tok_text(doc, x)).parse::<u128>().ok())
+                .sum();
+            let prev_new = (usize::MAX as u128 - a as u128 - before.min(1 << 40)).to_string();
+            let this_new = match rng.below(3) {
+                0 => (a + 1).to_string(),
+                1 => (a as u128 + 1 + rng.below(1000) as u128).to_string(),
+                _ => (usize::MAX as u128 - rng.below(5) as u128).to_string(),
+            };
+            let mut out = doc.bytes[..p.off].to_vec();
+            out.extend_from_slice(prev_new.as_bytes());
+            out.extend_from_slice(&doc.bytes[p.off + p.len..t.off]);
+            out.extend_from_slice(this_new.as_bytes());
+            out.extend_from_slice(&doc.bytes[t.off + t.len..]);
+            return Some(Corruption {
+                bytes: out,
+                line: t.line,
+                col_lo: t.col,
+                col_hi: t.col + this_new.len() - 1,
+                what: format!(
+                    "justice sizes '{}' then '{}': each fits usize, their total does not (error belongs to the second)",
+                    prev_new, this_new
+                ),
+            });
+        }
+    }
     for _attempt in 0..40 {
         let ti = rng.usize(n);
         let t = &doc.toks[ti];
